@@ -630,6 +630,7 @@ def build(control_events=False):
          modifies=["self.mode_stop_kwargs", "self.event_handlers", "self.mode_devices", "self.stop_callbacks",
                    "self.cleanup", "self.delay.pending.**", "self.switch_handlers"], raises={}, bounded=B2)
 
+    C.finite_checks.append(common.native_demo_check("c07_config_player_subscription_leak.py", "a mode with a conditional config-player entry leaves no event handler behind after it stopped"))
     C.finite_checks.append(common.native_demo_check(
         "c07_stop_from_started_handler.py",
         "a mode stopped from a handler of its own started event leaves no switch or event handler behind"))
